@@ -26,7 +26,8 @@ import (
 // outcome is accepted.
 
 type COp struct {
-	K      string `json:"k"` // sub unsub pub
+	K      string `json:"k"` // sub unsub pub reconn (End: 0 cut, 1 DISCONNECT then cut; the client goes on as a new client with a new identifier)
+	End    int    `json:"end,omitempty"`
 	Filter string `json:"filter,omitempty"`
 	QoS    byte   `json:"qos"`
 	Topic  string `json:"topic,omitempty"`
@@ -79,9 +80,9 @@ func runConc(p ConcPlan) (fail string, classes []string) {
 	var pubs []*pubRec
 	var pmu sync.Mutex
 	var msgno atomic.Int64
-	for i := range conns {
-		i := i
-		cn := b.Dial(fmt.Sprintf("cc%d", i))
+	closed := make([]bool, n)
+	dial := func(i int, name string) (*fix.Conn, error) {
+		cn := b.Dial(name)
 		cn.OnPacket = func(pk *codec.Packet, off int64) bool {
 			if pk.Type != codec.PUBLISH {
 				return false
@@ -95,7 +96,14 @@ func runConc(p ConcPlan) (fail string, classes []string) {
 			rmu.Unlock()
 			return true
 		}
-		if _, err := cn.Connect(wire.ConnectPacket(fmt.Sprintf("cc%d", i), true, 120)); err != nil {
+		if _, err := cn.Connect(wire.ConnectPacket(name, true, 120)); err != nil {
+			return nil, err
+		}
+		return cn, nil
+	}
+	for i := range conns {
+		cn, err := dial(i, fmt.Sprintf("cc%d", i))
+		if err != nil {
 			return "connect: " + err.Error(), nil
 		}
 		conns[i] = cn
@@ -107,6 +115,7 @@ func runConc(p ConcPlan) (fail string, classes []string) {
 		go func(i int, ops []COp) {
 			defer wg.Done()
 			cn := conns[i]
+			vi := i // index of the current connection's records (a reconnect opens a new one)
 			pid := uint16(0)
 			next := func() uint16 {
 				pid++
@@ -122,7 +131,7 @@ func runConc(p ConcPlan) (fail string, classes []string) {
 					id := next()
 					r := &subRec{filter: op.Filter, qos: op.QoS, sent: tick(), acked: never, unsent: never, unacked: never}
 					rmu.Lock()
-					subs[i] = append(subs[i], r)
+					subs[vi] = append(subs[vi], r)
 					rmu.Unlock()
 					cn.Send(&codec.Packet{Type: codec.SUBSCRIBE, PacketID: id, Topics: [][]byte{[]byte(op.Filter)}, QoSs: []byte{op.QoS}})
 					a, err := cn.Take(func(p *codec.Packet) bool { return p.Type == codec.SUBACK && p.PacketID == id }, wire.DefaultWait)
@@ -138,7 +147,7 @@ func runConc(p ConcPlan) (fail string, classes []string) {
 					t := tick()
 					rmu.Lock()
 					var mine []*subRec
-					for _, r := range subs[i] {
+					for _, r := range subs[vi] {
 						if r.filter == op.Filter && r.unsent == never {
 							r.unsent = t
 							mine = append(mine, r)
@@ -156,6 +165,45 @@ func runConc(p ConcPlan) (fail string, classes []string) {
 						r.unacked = t2
 					}
 					rmu.Unlock()
+				case "reconn":
+					// the connection ends (its subscriptions with it); the client carries on under a
+					// new identifier, so that the two connections share nothing by the statement
+					t := tick()
+					rmu.Lock()
+					for _, r := range subs[vi] {
+						if r.unsent == never {
+							r.unsent = t
+						}
+					}
+					rmu.Unlock()
+					// what was fanned out to this connection before t may still be in its outgoing
+					// buffer: the receiver's own barrier brings it in before the connection is cut
+					if _, err := cn.Barrier(); err != nil {
+						fails[i] = fmt.Sprintf("%s: barrier before the end of the connection: %v (stream %v)", where, err, cn.StreamErr())
+						return
+					}
+					if op.End == 1 {
+						cn.Send(&codec.Packet{Type: codec.DISCONNECT})
+					}
+					cn.Close()
+					rmu.Lock()
+					closed[vi] = true
+					vi = len(recv)
+					recv = append(recv, nil)
+					subs = append(subs, nil)
+					closed = append(closed, false)
+					conns = append(conns, nil)
+					rmu.Unlock()
+					nc, err := dial(vi, fmt.Sprintf("cc%d-%d", i, vi))
+					if err != nil {
+						fails[i] = fmt.Sprintf("%s: the new connection was not accepted: %v", where, err)
+						return
+					}
+					rmu.Lock()
+					conns[vi] = nc
+					rmu.Unlock()
+					cn = nc
+					pid = 0
 				case "pub":
 					no := int(msgno.Add(1))
 					pl := payload(no, op.Size)
@@ -204,12 +252,23 @@ func runConc(p ConcPlan) (fail string, classes []string) {
 	}
 	// every publisher's barrier has returned: all fan-outs are committed; cut every client
 	for i, cn := range conns {
+		if closed[i] || cn == nil {
+			continue
+		}
 		if _, err := cn.Barrier(); err != nil {
 			return fmt.Sprintf("client %d final barrier: %v (stream %v)", i, err, cn.StreamErr()), nil
 		}
 	}
 	cls := map[string]bool{}
+	rmu.Lock()
+	defer rmu.Unlock()
 	for i := range conns {
+		if conns[i] == nil {
+			continue
+		}
+		if closed[i] {
+			cls["connection-ended-mid-plan"] = true
+		}
 		per := map[int][]got{}
 		for _, g := range recv[i] {
 			per[g.msgno] = append(per[g.msgno], g)
@@ -268,8 +327,10 @@ func runConc(p ConcPlan) (fail string, classes []string) {
 				cls["definite-non-recipient"] = true
 			}
 		}
-		if se := conns[i].StreamErr(); se != nil {
-			return fmt.Sprintf("client %d received a malformed stream: %v", i, se), nil
+		if !closed[i] {
+			if se := conns[i].StreamErr(); se != nil {
+				return fmt.Sprintf("client %d received a malformed stream: %v", i, se), nil
+			}
 		}
 	}
 	for _, x := range b.Escaped() {
@@ -286,6 +347,7 @@ func genConc(t *rapid.T) ConcPlan {
 	p := ConcPlan{BufSize: rapid.SampledFrom([]int{16384, 32768}).Draw(t, "bufsize")}
 	filters := []string{"a", "b", "a/b", "a/#", "+", "a/+", "#", "+/b", "cc"}
 	topics := []string{"a", "b", "a/b", "cc", "a/cc", "b/b"}
+	churn := rapid.IntRange(0, 1).Draw(t, "churn") == 1
 	for i, n := 0, rapid.IntRange(2, 5).Draw(t, "nclients"); i < n; i++ {
 		var ops []COp
 		for j, m := 0, rapid.IntRange(4, 25).Draw(t, "nops"); j < m; j++ {
@@ -293,6 +355,10 @@ func genConc(t *rapid.T) ConcPlan {
 			case k < 3:
 				ops = append(ops, COp{K: "sub", Filter: rapid.SampledFrom(filters).Draw(t, "f"), QoS: byte(rapid.IntRange(0, 2).Draw(t, "q"))})
 			case k < 5:
+				if churn && rapid.IntRange(0, 3).Draw(t, "re") == 0 {
+					ops = append(ops, COp{K: "reconn", End: rapid.IntRange(0, 1).Draw(t, "end")})
+					break
+				}
 				ops = append(ops, COp{K: "unsub", Filter: rapid.SampledFrom(filters).Draw(t, "f")})
 			default:
 				ops = append(ops, COp{K: "pub", Topic: rapid.SampledFrom(topics).Draw(t, "t"), QoS: byte(rapid.IntRange(0, 2).Draw(t, "q")), Size: rapid.SampledFrom([]int{8, 30, 500, 4000}).Draw(t, "s")})
